@@ -34,7 +34,7 @@ def _hints(m, body):
     return out
 
 
-@unit("C11.inequalities", "C11", "ngo.symmetry:SymmetryTranslator._inequalities")
+@unit("C11.inequalities", "C11", "ngo.symmetry:SymmetryTranslator._inequalities", fallback={"mirror": "corpus", "trait": "symmetry"})
 def inequalities(ctx):
     """every recorded (lit, x, y) under `!=` really implies x != y, every one under `<` really implies x < y
     (for every variable assignment under which lit holds); only literals of the given body are recorded"""
@@ -96,7 +96,7 @@ def inequalities(ctx):
             )
 
 
-@unit("C11.unequal", "C11", "ngo.symmetry:SymmetryTranslator._unequal")
+@unit("C11.unequal", "C11", "ngo.symmetry:SymmetryTranslator._unequal", fallback={"mirror": "corpus", "trait": "symmetry"})
 def unequal(ctx):
     """_unequal(lhs, rhs, table) returns an entry of the table recorded for exactly the unordered pair {lhs, rhs},
     with the operator of the bucket it was found in; None only if no entry exists for the pair"""
